@@ -174,7 +174,8 @@ class C02:
             'table, a << b, a selection grown again and filled in) x cell vectors of length 0..6 (thorough: ..10) drawn from a 12-15 value alphabet per type '
             '(ints incl. 2^53+1 / int64 bounds, floats incl. nan, +-inf, -0.0, text, None) x references {int, float incl. '
             'nan/+-inf/-0.0, text, numeric text, None, bool, same-length list/tuple (incl. the column\'s own cells, '
-            'wrong length), set (0-3 members incl. nan), 12 plain def/lambda functions, 6 types} x all six operators per '
+            'wrong length), set (0-4 members incl. nan, also with the NaN members being the very float objects the '
+            'MixedColumn stores), 12 plain def/lambda functions, 6 types} x all six operators per '
             'case; plus one sweep of every scalar reference against a column holding the whole alphabet. Rows are '
             'identified by a unique payload column p and the row ids; a FloatColumn e rides along. The source is dumped '
             'before/after each comparison; the result must be a new DataMatrix sharing no column object or cell '
@@ -335,13 +336,14 @@ class C02:
         n = len(before[0])
         args = '%s %s "c" %s %s' % (src_lit[0], src_lit[1], rlit, xs)
         return {
-            'input': dict(inp, ref=enc_ref(ref)), 'observed': observed, 'pyfail': pyfail,
+            'input': dict(inp, ref=(dict(enc_ref(ref), shared=True) if inp['ref'].get('shared') else enc_ref(ref))),
+            'observed': observed, 'pyfail': pyfail,
             'oracle': '(oracle %s)' % args,
             'model': '(model_agrees %s)' % args,
             'aux': '(some_in_dom %s "c" %s %s)' % (src_lit[1], rlit, xs),
             'nontrivial': any(0 < s < n for s in sizes),
-            'sig': '%s|%s|%s|%s' % (kind, deriv, src_lit[1], rlit),
-            'tags': [kind, deriv, 'ref:' + self.ref_tag(ref), 'len%d' % n],
+            'sig': '%s|%s|%s|%s%s' % (kind, deriv, src_lit[1], rlit, '|shared' if inp['ref'].get('shared') else ''),
+            'tags': [kind, deriv, 'ref:' + self.ref_tag(ref), 'len%d' % n] + (['shared-nan'] if inp['ref'].get('shared') else []),
         }
 
     def ref_tag(self, ref):
@@ -381,7 +383,14 @@ class C02:
             rnd = _random.Random(r['v'])
             alt = SCALARS[kind_of(dm.c)][:12]
             return ('seq', [c if rnd.random() < 0.6 else rnd.choice(alt) for c in cells])
-        return dec_ref(r)
+        ref = dec_ref(r)
+        if r.get('shared') and ref[0] == 'set' and isinstance(dm.c._seq, list):
+            # the NaN members of the set are the very float objects the column stores (a MixedColumn keeps the
+            # object it was given): `x in set` / `x == y` short-cuts on identity must not make NaN match
+            own = [x for x in dm.c._seq if type(x) is float and x != x]
+            if own and any(type(x) is float and x != x for x in ref[1]):
+                ref = ('set', [x for x in ref[1] if not (type(x) is float and x != x)] + own)
+        return ref
 
     # ---- generation -----------------------------------------------------------------------
     def random_ref(self, rng, kind, n, which):
@@ -408,7 +417,13 @@ class C02:
             if kind == 'KFloat':
                 # numpy.float64 == <int beyond 2^53> rounds the int; the L1 model compares set members exactly
                 pool = [x for x in pool if not (type(x) is int and abs(x) > 2 ** 53)]
-            return {'t': 'set', 'v': [pyobs.enc(rng.choice(pool)) for _ in range(rng.randint(0, 3))]}
+            vs = [rng.choice(pool) for _ in range(rng.randint(0, 3))]
+            if kind != 'KInt' and rng.random() < 0.35:
+                vs.append(NAN)
+            r = {'t': 'set', 'v': [pyobs.enc(x) for x in vs]}
+            if any(type(x) is float and x != x for x in vs) and rng.random() < 0.7:
+                r['shared'] = True          # NaN members are the column's own NaN objects (see make_ref)
+            return r
         if which == 'pred':
             return {'t': 'pred', 'v': rng.randrange(len(PREDICATES)) if rng.random() < 0.3 else rng.randrange(N_TOTAL_PREDS)}
         if which == 'type':
@@ -439,6 +454,8 @@ class C02:
                 add(dict(base, ref={'t': 'pred', 'v': i}))
             add(dict(base, ref={'t': 'set', 'v': []}))
             add(dict(base, ref={'t': 'set', 'v': [pyobs.enc(NAN)]}))
+            add(dict(base, ref={'t': 'set', 'v': [pyobs.enc(NAN)], 'shared': True}))
+            add(dict(base, ref={'t': 'set', 'v': [pyobs.enc(NAN), pyobs.enc(1)], 'shared': True}))
         per_len = 3 if tier == 'quick' else 8
         maxlen = 6 if tier == 'quick' else 10
         refs_per_source = 5 if tier == 'quick' else 6
